@@ -190,14 +190,12 @@ end vocabulary
 theorem alias_same_extractor :
     ∀ p ∈ stmtTypeAliases, dispatch p.1 = dispatch p.2 ∧ (dispatch p.1).isSome = true := by decide
 
-/-- finding K3 (impala): the type impala gives CREATE TABLE … AS is claimed by NO extractor … -/
-theorem dev_K3_unclaimed : ∀ p ∈ stmtTypeUnclaimed, dispatch p.1 = none ∧ (dispatch p.2).isSome = true := by decide
+/-- K3 repaired: no dialect statement type that stands for a core statement type is left unclaimed … -/
+theorem fixed_K3_none_unclaimed : stmtTypeUnclaimed = [] := rfl
 
-/-- … so the statement is reported unsupported (or, in silent mode, yields nothing) although it is a core statement -/
-theorem dev_K3_unsupported (env : Env) (s : Stmt) (h : stmtType s = "create_table_as_select_statement") :
-    analyze env false s = .error .unsupported ∧ analyze env true s = .ok Graph.empty :=
-  C01.dispatch_total env s (by
-    rw [h]; exact (dev_K3_unclaimed ("create_table_as_select_statement", "create_table_statement") (by simp [stmtTypeUnclaimed])).1)
+/-- … impala's CTAS type is dispatched to the extractor that handles CREATE TABLE (over the REGENERATED table) -/
+theorem fixed_K3 : dispatch "create_table_as_select_statement" = dispatch "create_table_statement" ∧
+    (dispatch "create_table_as_select_statement").isSome = true := by decide
 
 /-! ### the agreement classes: witnesses and non‑vacuity -/
 
@@ -224,10 +222,10 @@ theorem class_witnesses :
     let a : Item := .mk (.col [] "a") none false
     -- K1  select a from t1 where a in (select c from t3)
     classes (.query (sel [a] (some (.inSubq (.col [] "a") false sub))) false) = ["K1"] ∧
-    -- K2  create view tgt as select a from t1
-    classes (.createView ["tgt"] false none (sel [a] none)) = ["K2"] ∧
-    -- K3 / L4  create table if not exists tgt as select a from t1
-    classes (.ctas ["tgt"] false true (sel [a] none) false) = ["K3", "L4"] ∧
+    -- (K2 repaired)  create view tgt as select a from t1
+    classes (.createView ["tgt"] false none (sel [a] none)) = [] ∧
+    -- L4 (K3 repaired)  create table if not exists tgt as select a from t1
+    classes (.ctas ["tgt"] false true (sel [a] none) false) = ["L4"] ∧
     -- K4  select case when a > 1 then b end e from t1
     classes (.query (sel [.mk (.case [.mk (.bin ">" (.col [] "a") (.lit "1")) (.col [] "b")] none) (some "e") false] none) false) = ["K4"] ∧
     -- L1  select a from t1 join t2 on t1.a = t2.a, t3
